@@ -81,6 +81,12 @@ int main(void) {
 	mmd_engine *e = mmd_engine_create_with_dstring(d, ext); mmd_engine_set_language(e, lang);
 	char *r3 = mmd_engine_convert(e, fmt);
 	CHECK(memcmp(t1, rec_text, N + 1) == 0 && e1 == rec_ext && l1 == rec_lang && q1 == rec_ql && f1 == rec_fmt && strcmp(r1, r3) == 0, "engine variant agrees");
+	/* the engine variant documented for repeated use: a second conversion on the same engine parses and exports again and agrees */
+	int np = n_parse, ne = n_export;
+	char *r4 = mmd_engine_convert(e, fmt);
+	CHECK(n_parse == np + 1 && n_export == ne + 1, "every engine conversion parses and exports (a reused engine is not served from a stale tree)");
+	CHECK(strcmp(r1, r4) == 0, "second conversion on the same engine gives the same bytes");
+	free(r4);
 	mmd_engine_free(e, false);
 	CHECK(strcmp(d->str, src) == 0 && d->currentStringLength == len, "caller's DString still valid and unchanged");
 	free(r1); free(r2); free(r3);
